@@ -658,3 +658,18 @@ Definition save_case_ok (c : bool * option stop * N) : bool :=
 Definition save_obs_violates (c : bool * option stop * N) : bool :=
   let '(had, _, obs) := c in
   negb ((obs =? 1) || (if had then obs =? 0 else obs =? 2)).
+
+(* start-up cases: the directory as a list of (name, content) codes — name 0 = the history file f,
+   1 = f~, k = f with another suffix; content 0 = the good generation, 1 = another complete
+   generation, anything else = something the decoder rejects *)
+Definition case_name (k : N) : bs :=
+  if k =? 0 then [102] else if k =? 1 then tmp_name [102] else [102; 46; k].
+Definition case_content (k : N) : fcontent :=
+  if k =? 0 then FWhole (gen_tag 1) else if k =? 1 then FWhole (gen_tag 2) else FTorn.
+Definition startup_case_fs (l : list (N * N)) : fsys :=
+  fold_left (fun fs nc => fs_set (case_name (fst nc)) (case_content (snd nc)) fs) l [].
+Definition startup_case_ok (c : list (N * N) * N) : bool :=
+  loaded_class (startup_load (startup_case_fs (fst c)) [102]) =? snd c.
+(* the property on the observation: a start on a good history file comes back with it *)
+Definition startup_obs_violates (c : list (N * N) * N) : bool :=
+  existsb (fun nc => (fst nc =? 0) && (snd nc =? 0)) (fst c) && negb (snd c =? 0).
